@@ -265,6 +265,8 @@ def contains(I, container, x, node):
             return simp(z3.Contains(z3.StringVal(container), x.t))
     if isinstance(container, SStr) and isinstance(x, (str, SStr)):
         return simp(z3.Contains(container.t, sym.zterm(x)))
+    if isinstance(container, PObj) and container.clsname == "Namespace" and isinstance(x, str):
+        return x in container.fields
     h = I.ctx.contains_hook(I, container, x, node)
     if h is not NotImplemented:
         return h
@@ -901,7 +903,14 @@ def _getattr(I, obj, name, *default):
         raise
 
 
+def _setattr(I, obj, name, value):
+    if not isinstance(name, str):
+        raise Unsupported("setattr with non-literal name")
+    I.setattr(obj, name, value, None)
+
+
 BUILTINS = {
+    "setattr": _setattr,
     "len": _len,
     "abs": _abs,
     "min": _minmax(False),
